@@ -234,8 +234,509 @@ fn recurrence_run(rep: &mut Report, dict: &std::sync::Arc<FstDictionary>, trig: 
     }
 }
 
+// ======================================================================================================
+// span.rs, every function (Model/C03Span.v run_span_op): correspondence lines `S op a b x y | src`
+// ======================================================================================================
+const SPAN_OPS: usize = 19;
+const SPAN_OP_NAMES: [&str; SPAN_OPS] = ["new", "new_with_len", "len", "is_empty", "contains", "overlaps_with", "try_get_content", "get_content",
+    "get_content_string", "set_len", "with_len", "push_by", "pull_by", "pushed_by", "pulled_by", "with_offset", "from_range", "into_range", "into_iter"];
+
+fn fmt_span(s: Span) -> String {
+    format!("S {} {}", s.start, s.end)
+}
+fn fmt_text(t: &[char]) -> String {
+    format!("T {}", cps(t)).trim().to_string()
+}
+
+/// the algebra of C03SpanProofs evaluated on the implementation (inverse laws, with_len, overlaps/contains, slice)
+fn span_algebra(rep: &mut Report, a: usize, b: usize, x: usize, y: usize, src: &[char], inp: &Value) {
+    let sp = Span { start: a, end: b };
+    let bad = guarded(|| {
+        let mut bad: Vec<String> = vec![];
+        if let Some(k) = a.checked_add(x).and(b.checked_add(x)) {
+            let _ = k;
+            let p = sp.pushed_by(x);
+            if p.pulled_by(x) != Some(sp) {
+                bad.push("pulled_by does not undo pushed_by".into());
+            }
+            let mut q = sp;
+            q.push_by(x);
+            q.pull_by(x);
+            if q != sp || p != sp.with_offset(x) {
+                bad.push("pull_by does not undo push_by / with_offset differs from pushed_by".into());
+            }
+        }
+        if a <= b {
+            if let Some(q) = sp.pulled_by(x) {
+                if q.pushed_by(x) != sp {
+                    bad.push("pushed_by does not undo pulled_by".into());
+                }
+            } else if x <= a {
+                bad.push("pulled_by is None although by <= start".into());
+            }
+            if let Some(e) = a.checked_add(x) {
+                let w = sp.with_len(x);
+                if w.start != a || w.end != e || w.len() != x {
+                    bad.push("with_len moved the start or has the wrong length".into());
+                }
+            }
+            let o = Span { start: x.min(y), end: x.max(y) };
+            if sp.overlaps_with(o) != o.overlaps_with(sp) {
+                bad.push("overlaps_with is not symmetric".into());
+            }
+            if a < b && o.start < o.end && b - a <= 64 {
+                let shared = (a..b).any(|i| o.contains(i) && sp.contains(i));
+                if shared != sp.overlaps_with(o) {
+                    bad.push("overlaps_with differs from sharing a position".into());
+                }
+            }
+            if b <= src.len() && sp.get_content(src) != &src[a..b] {
+                bad.push("get_content is not the slice".into());
+            }
+        }
+        bad
+    });
+    if let Ok(bad) = bad {
+        for m in bad {
+            rep.fail("span_algebra", m, inp.clone());
+        }
+    } else {
+        rep.fail("span_algebra", format!("a law of span.rs panicked on values it is defined for: {}", last_panic_location()), inp.clone());
+    }
+}
+
+fn span_case(rep: &mut Report, op: usize, a: usize, b: usize, x: usize, y: usize, src: &[char], origin: &str) {
+    use std::ops::Range;
+    // keep `into_iter` finite
+    if op == 18 && a <= b && b - a > 64 {
+        return;
+    }
+    rep.eval();
+    let sp = Span { start: a, end: b };
+    let r = guarded(|| match op {
+        0 => fmt_span(Span::new(a, b)),
+        1 => fmt_span(Span::new_with_len(a, b)),
+        2 => format!("N {}", sp.len()),
+        3 => format!("B {}", sp.is_empty() as u8),
+        4 => format!("B {}", sp.contains(x) as u8),
+        5 => format!("B {}", sp.overlaps_with(Span { start: x, end: y }) as u8),
+        6 => match sp.try_get_content(src) {
+            Some(t) => fmt_text(t),
+            None => "-".to_string(),
+        },
+        7 => fmt_text(sp.get_content(src)),
+        8 => fmt_text(&sp.get_content_string(src).chars().collect::<Vec<_>>()),
+        9 => {
+            let mut s = sp;
+            s.set_len(x);
+            fmt_span(s)
+        }
+        10 => fmt_span(sp.with_len(x)),
+        11 => {
+            let mut s = sp;
+            s.push_by(x);
+            fmt_span(s)
+        }
+        12 => {
+            let mut s = sp;
+            s.pull_by(x);
+            fmt_span(s)
+        }
+        13 => fmt_span(sp.pushed_by(x)),
+        14 => match sp.pulled_by(x) {
+            Some(s) => fmt_span(s),
+            None => "-".to_string(),
+        },
+        15 => fmt_span(sp.with_offset(x)),
+        16 => fmt_span(Span::from(a..b)),
+        17 => {
+            let r: Range<usize> = sp.into();
+            format!("S {} {}", r.start, r.end)
+        }
+        _ => format!("L {}", sp.into_iter().map(|i| i.to_string()).collect::<Vec<_>>().join(" ")).trim().to_string(),
+    });
+    let case_line = format!("S {op} {a} {b} {x} {y} | {}", cps(src));
+    let inp = json!({"kind": "span_op", "op": op, "a": a, "b": b, "x": x, "y": y, "src": src.iter().collect::<String>(), "origin": origin});
+    match &r {
+        Ok(s) => {
+            rep.case(case_line.trim(), s);
+            rep.count(&format!("span:{}:ok", SPAN_OP_NAMES[op.min(SPAN_OPS - 1)]));
+            rep.nontrivial(&(op, a, b, x, y, src.to_vec()));
+        }
+        Err(_) => {
+            rep.case(case_line.trim(), "P");
+            rep.count(&format!("span:{}:panic", SPAN_OP_NAMES[op.min(SPAN_OPS - 1)]));
+        }
+    }
+    if op == 0 {
+        span_algebra(rep, a, b, x, y, src, &inp);
+    }
+}
+
+fn span_ops(rep: &mut Report, r: &mut Rng, a: &Args) {
+    let alphabet: Vec<char> = "ab é😀.".chars().collect();
+    let m = usize::MAX;
+    let big = [m, m - 1, m - 2, m - 3, m - 7, m / 2, m / 2 + 1, 1usize << 63, (1usize << 32) + 1];
+    let num = |r: &mut Rng, hi: usize| -> usize {
+        match r.below(10) {
+            0 => *r.pick(&big),
+            1 => r.below(3),
+            _ => r.below(hi + 1),
+        }
+    };
+    for _ in 0..a.scale(6000, 120_000) {
+        let src: Vec<char> = (0..r.below(9)).map(|_| *r.pick(&alphabet)).collect();
+        let op = r.below(SPAN_OPS);
+        let (sa, sb) = (num(r, src.len() + 2), num(r, src.len() + 2));
+        // mostly well-formed spans, some ill-formed
+        let (sa, sb) = if r.chance(4, 5) { (sa.min(sb), sa.max(sb)) } else { (sa, sb) };
+        let (x, y) = (num(r, src.len() + 3), num(r, src.len() + 3));
+        span_case(rep, op, sa, sb, x, y, &src, "random");
+    }
+    if a.thorough() {
+        // exhaustive: every function on every span / argument over 0..=5 and a 4-character source
+        let src: Vec<char> = "abcd".chars().collect();
+        let mut n = 0u64;
+        for op in 0..SPAN_OPS {
+            for sa in 0..=5 {
+                for sb in 0..=5 {
+                    for x in 0..=5 {
+                        let ys: Vec<usize> = if op == 5 { (0..=5).collect() } else { vec![0] };
+                        for y in ys {
+                            span_case(rep, op, sa, sb, x, y, &src, "exhaustive");
+                            n += 1;
+                        }
+                    }
+                }
+            }
+        }
+        rep.extra.insert("exhaustive_span_ops_over_0_5".into(), json!(n));
+    }
+}
+
+// ======================================================================================================
+// LintGroup::lint, the whole loop (Model/C03LintGroup.v): histories on ONE group made of test rules whose
+// result functions the harness knows; correspondence lines GN / GC / GL
+// ======================================================================================================
+use harper_core::linting::{Lint, LintKind, PatternLinter};
+use harper_core::patterns::Pattern;
+use harper_core::{Document, Token, TokenStringExt};
+use std::sync::atomic::{AtomicUsize, Ordering};
+use std::sync::Arc;
+
+const N_WHOLE: usize = 3;
+const N_RULES: usize = 8;
+/// rules 6 (reports a span starting before the token: before the CHUNK for the first word of a clause) and 7 (span
+/// reaching 3 characters beyond the token) violate the premise of C03_lintgroup_history_in_bounds on purpose
+const BAD_RULES: usize = (1 << 6) | (1 << 7);
+
+fn mk_lint(span: Span, payload: usize) -> Lint {
+    Lint { span, lint_kind: LintKind::Miscellaneous, suggestions: vec![], message: payload.to_string(), priority: 127 }
+}
+
+#[derive(Clone)]
+struct TestRule {
+    id: usize,
+    epoch: Arc<AtomicUsize>,
+}
+impl Pattern for TestRule {
+    fn matches(&self, tokens: &[Token], _source: &[char]) -> usize {
+        usize::from(tokens.first().is_some_and(|t| t.kind.is_word()))
+    }
+}
+impl PatternLinter for TestRule {
+    fn pattern(&self) -> &dyn Pattern {
+        self
+    }
+    fn match_to_lint(&self, m: &[Token], _source: &[char]) -> Option<Lint> {
+        let s = m[0].span;
+        Some(match self.id {
+            3 => mk_lint(s, 3),
+            4 => mk_lint(s.with_len(1), 4),
+            5 => mk_lint(s, 200 + self.epoch.load(Ordering::SeqCst)),
+            6 => mk_lint(Span { start: s.start - s.start.min(2), end: s.end }, 6),
+            _ => mk_lint(Span { start: s.start, end: s.end + 3 }, 7),
+        })
+    }
+    fn description(&self) -> &str {
+        "test rule"
+    }
+}
+struct WholeRule {
+    id: usize,
+    epoch: Arc<AtomicUsize>,
+}
+impl Linter for WholeRule {
+    fn lint(&mut self, d: &Document) -> Vec<Lint> {
+        let n = d.get_source().len();
+        match self.id {
+            0 => d.get_tokens().iter().filter(|t| t.kind.is_word()).map(|t| mk_lint(t.span, 1)).collect(),
+            1 => vec![mk_lint(Span { start: 0, end: n }, 2)],
+            _ => vec![mk_lint(Span { start: 0, end: n.min(1) }, 100 + self.epoch.load(Ordering::SeqCst))],
+        }
+    }
+    fn description(&self) -> &str {
+        "test rule"
+    }
+}
+
+/// pattern_linter.rs::run_on_chunk (not exported), re-stated; cross-checked against the blanket `Linter` impl
+fn run_on_chunk_replica(l: &dyn PatternLinter, chunk: &[Token], source: &[char]) -> Vec<Lint> {
+    let mut lints = vec![];
+    let mut cur = 0;
+    while cur < chunk.len() {
+        let n = l.pattern().matches(&chunk[cur..], source);
+        if n != 0 {
+            lints.extend(l.match_to_lint(&chunk[cur..cur + n], source));
+            cur += n;
+        } else {
+            cur += 1;
+        }
+    }
+    lints
+}
+
+struct TestGroup {
+    g: LintGroup,
+    epoch: Arc<AtomicUsize>,
+    calls: usize,
+}
+fn rule_name(i: usize) -> String {
+    format!("r{i}")
+}
+fn mk_test_group() -> TestGroup {
+    let epoch = Arc::new(AtomicUsize::new(0));
+    let mut g = LintGroup::empty();
+    for i in 0..N_WHOLE {
+        g.add(rule_name(i), Box::new(WholeRule { id: i, epoch: epoch.clone() }));
+    }
+    for i in N_WHOLE..N_RULES {
+        g.add_pattern_linter(rule_name(i), Box::new(TestRule { id: i, epoch: epoch.clone() }));
+    }
+    TestGroup { g, epoch, calls: 0 }
+}
+fn set_cfg(g: &mut LintGroup, cfg: usize) {
+    for i in 0..N_RULES {
+        g.config.set_rule_enabled(rule_name(i), cfg >> i & 1 == 1);
+    }
+}
+fn lint_triples(ls: &[Lint]) -> String {
+    ls.iter().map(|l| format!("{} {} {}", l.span.start, l.span.end, l.message)).collect::<Vec<_>>().join(" ")
+}
+
+/// steps: {"cfg": n} | {"text": s}
+fn lg_history(rep: &mut Report, kinds: &mut std::collections::HashMap<String, usize>, dict: &std::sync::Arc<FstDictionary>, steps: &[Value]) {
+    rep.eval();
+    let inp = json!({"kind": "lg_history", "steps": steps});
+    let mut tg = mk_test_group();
+    let mut cfg = 0usize;
+    rep.case("GN", "ok");
+    let mut any_hit_elsewhere = false;
+    let mut seen_chunks: std::collections::HashMap<Vec<char>, usize> = Default::default();
+    for st in steps {
+        if let Some(c) = st["cfg"].as_u64() {
+            cfg = c as usize;
+            set_cfg(&mut tg.g, cfg);
+            rep.case(&format!("GC {cfg}"), "ok");
+            continue;
+        }
+        let text = st["text"].as_str().unwrap_or("");
+        let Ok(doc) = guarded(|| frontends::make_document("plain", text, dict)) else {
+            rep.count("lintgroup:document_panicked(C01's business)");
+            return;
+        };
+        let src = doc.get_source().to_vec();
+        tg.epoch.store(tg.calls, Ordering::SeqCst);
+        // what every rule returns NOW (a rule's answer may depend on the call number: rules 2 and 5)
+        let shadow = guarded(|| {
+            let whole: Vec<String> = (0..N_WHOLE).map(|i| format!("{i}: {}", lint_triples(&WholeRule { id: i, epoch: tg.epoch.clone() }.lint(&doc)))).collect();
+            let mut chunks: Vec<String> = vec![];
+            let mut per_rule_concat: Vec<Vec<Lint>> = vec![vec![]; N_RULES];
+            for ch in doc.iter_chunks() {
+                let toks: Vec<String> = ch.iter().map(|t| {
+                    let n = kinds.len();
+                    let k = *kinds.entry(format!("{:?}", t.kind)).or_insert(n);
+                    format!("{} {} {}", t.span.start, t.span.end, k)
+                }).collect();
+                let mut f = vec![toks.join(" ")];
+                for i in N_WHOLE..N_RULES {
+                    let ls = run_on_chunk_replica(&TestRule { id: i, epoch: tg.epoch.clone() }, ch, &src);
+                    f.push(format!("{i}: {}", lint_triples(&ls)));
+                    per_rule_concat[i].extend(ls);
+                }
+                chunks.push(f.join(";"));
+            }
+            // the replica of run_on_chunk against the library's own loop (blanket impl Linter for PatternLinter)
+            let mut replica_differs = 0u64;
+            for i in N_WHOLE..N_RULES - 2 {
+                let lib = TestRule { id: i, epoch: tg.epoch.clone() }.lint(&doc);
+                if lint_triples(&lib) != lint_triples(&per_rule_concat[i]) {
+                    replica_differs += 1;
+                }
+            }
+            (whole, chunks, replica_differs)
+        });
+        let Ok((whole, chunks, replica_differs)) = shadow else {
+            // rule 6 / 7 arithmetic cannot overflow here; a panic is the tokenizer's business
+            rep.count("lintgroup:shadow_panicked");
+            return;
+        };
+        rep.monitor("run_on_chunk_replica_differs", replica_differs);
+        if replica_differs > 0 {
+            rep.fail("run_on_chunk_replica_differs", "the harness's statement of run_on_chunk no longer agrees with pattern_linter.rs".into(), inp.clone());
+        }
+        for ch in doc.iter_chunks() {
+            if let Some(sp) = ch.span() {
+                let chars = doc.get_span_content(&sp).to_vec();
+                if let Some(prev) = seen_chunks.get(&chars) {
+                    if *prev != sp.start {
+                        any_hit_elsewhere = true;
+                    }
+                }
+                seen_chunks.insert(chars, sp.start);
+            }
+        }
+        let case_line = format!("GL|{}|{}|{}", cps(&src), whole.join(";"), chunks.join("|"));
+        let out = guarded(|| tg.g.lint(&doc));
+        tg.calls += 1;
+        match out {
+            Ok(ls) => {
+                rep.case(&case_line, lint_triples(&ls).trim());
+                rep.count("lintgroup:lint_call");
+                if cfg & BAD_RULES == 0 {
+                    // premises of the theorem hold for rules 0..5: its conclusion must hold on the implementation
+                    for l in &ls {
+                        if !(l.span.start <= l.span.end && l.span.end <= src.len()) {
+                            rep.fail("lintgroup_lint_out_of_bounds", format!("LintGroup::lint with well-behaved rules returned {:?} (rule payload {}) outside the text of length {}", l.span, l.message, src.len()), inp.clone());
+                            break;
+                        }
+                    }
+                }
+            }
+            Err(m) => {
+                rep.case(&case_line, "P");
+                rep.count("lintgroup:lint_call_panicked");
+                if cfg & BAD_RULES == 0 {
+                    rep.fail("lintgroup_panics", format!("LintGroup::lint with well-behaved rules panicked: {m} at {}", last_panic_location()), inp.clone());
+                }
+                // the group's state after a panic is not modelled: end of this history
+                return;
+            }
+        }
+    }
+    if any_hit_elsewhere {
+        rep.count("lintgroup:history_with_a_clause_recurring_at_another_offset");
+        rep.nontrivial(&steps.iter().map(|s| s.to_string()).collect::<Vec<_>>());
+    }
+}
+
+fn gen_lg_history(r: &mut Rng) -> Vec<Value> {
+    let n_pool = 3 + r.below(3);
+    let pool: Vec<String> = (0..n_pool).map(|_| {
+        let n = 1 + r.below(4);
+        (0..n).map(|_| r.pick(gen::COMMON).to_string()).collect::<Vec<_>>().join(" ")
+    }).collect();
+    let mut pool = pool;
+    if r.chance(1, 2) {
+        // twin clauses: same token shapes, characters that differ only late in the clause (a key that forgets
+        // part of the chunk's characters confuses them)
+        let base = format!("{} and the", pool[0]);
+        let (x, y) = *r.pick(&[("cat", "dog"), ("walked", "talked"), ("house", "mouse"), ("cats", "dogs")]);
+        pool.push(format!("{base} {x}"));
+        pool.push(format!("{base} {y}"));
+        pool.push(format!("{base} {x}"));
+        pool.push(format!("{base} {y}"));
+    }
+    let good_cfg = |r: &mut Rng| r.below(1 << 6) | if r.chance(3, 4) { 1 << 3 | 1 << 5 } else { 0 };
+    let mut steps = vec![];
+    let bad = r.chance(1, 4);
+    steps.push(json!({"cfg": good_cfg(r) | if bad { (1 + r.below(3)) << 6 } else { 0 }}));
+    for _ in 0..(2 + r.below(4)) {
+        if r.chance(1, 3) {
+            steps.push(json!({"cfg": good_cfg(r) | if bad && r.chance(1, 2) { (1 + r.below(3)) << 6 } else { 0 }}));
+        }
+        let k = 1 + r.below(5);
+        let mut text = String::new();
+        if r.chance(1, 3) {
+            text.push_str(*r.pick(&["é𝒜 ", "So ", "Well then", "😀"]));
+        }
+        for i in 0..k {
+            if i > 0 || !text.is_empty() {
+                text.push_str(*r.pick(&[", ", ", ", ", ", ", ", ", ", "; ", ". ", ",", " - ", ".\n\n", ": "]));
+            }
+            text.push_str(r.pick(&pool[..]).as_str());
+        }
+        text.push_str(*r.pick(&[",", ",", ".", "", "!"]));
+        steps.push(json!({"text": text}));
+    }
+    steps
+}
+
+// ======================================================================================================
+// the premise of C03_lintgroup_history_in_bounds on harper's own pattern rules: every lint a pattern rule
+// reports for a chunk lies inside that chunk's hull (monitor `pattern_rule_lint_outside_chunk`)
+// ======================================================================================================
+fn real_pattern_rules() -> Vec<(&'static str, Box<dyn PatternLinter>)> {
+    use harper_core::linting::*;
+    macro_rules! rules { ($($r:ident),*) => { vec![$((stringify!($r), Box::new($r::default()) as Box<dyn PatternLinter>)),*] } }
+    rules!(BackInTheDay, BoringWords, ChockFull, Confident, Dashes, DespiteOf, DotInitialisms, ExpandTimeShorthands, ForNoun, Hedging,
+        Hereby, HyphenateNumberDay, LeftRightHand, Likewise, ModalOf, MultipleSequentialPronouns, Nobody, OutOfDate, Oxymorons,
+        PiqueInterest, PossessiveYour, SomewhatSomething, ThatWhich, TheHowWhy, ThenThan, UseGenitive, WasAloud, Whereas, WidelyAccepted)
+}
+fn premise_monitor(rep: &mut Report, rules: &[(&'static str, Box<dyn PatternLinter>)], fe: &str, text: &str, dict: &std::sync::Arc<FstDictionary>) {
+    let inp = json!({"kind": "premise", "frontend": fe, "text": text});
+    let r = guarded(|| {
+        let doc = frontends::make_document(fe, text, dict);
+        let src = doc.get_source();
+        let mut bad: Vec<String> = vec![];
+        let (mut n_lints, mut n_chunks, mut hull_outside) = (0u64, 0u64, 0u64);
+        for ch in doc.iter_chunks() {
+            let Some(sp) = ch.span() else { continue };
+            n_chunks += 1;
+            if sp.end > src.len() {
+                hull_outside += 1;
+                continue;
+            }
+            for (name, rule) in rules {
+                for l in run_on_chunk_replica(rule.as_ref(), ch, src) {
+                    n_lints += 1;
+                    if !(sp.start <= l.span.start && l.span.start <= l.span.end && l.span.end <= sp.end) {
+                        bad.push(format!("{name} reports {:?} for the chunk {:?}", l.span, sp));
+                    }
+                }
+            }
+        }
+        (bad, n_lints, n_chunks, hull_outside)
+    });
+    let Ok((bad, n_lints, n_chunks, hull_outside)) = r else {
+        rep.count("premise:document_or_rule_panicked(C01's business)");
+        return;
+    };
+    rep.eval();
+    rep.count_n("premise:chunks", n_chunks);
+    rep.count_n("premise:pattern_rule_lints", n_lints);
+    rep.monitor("pattern_rule_lint_outside_chunk", bad.len() as u64);
+    rep.monitor("chunk_hull_outside_source", hull_outside);
+    if hull_outside > 0 {
+        rep.fail("chunk_hull_outside_source", "a chunk's hull ends beyond the source (token invariant, C02)".into(), inp.clone());
+    }
+    if let Some(b) = bad.first() {
+        rep.fail("pattern_rule_lint_outside_chunk", format!("premise of C03_lintgroup_history_in_bounds violated: {b}"), inp);
+    }
+}
+
 pub fn replay_input(rep: &mut Report, v: &Value, group: &mut LintGroup, dict: &std::sync::Arc<FstDictionary>) {
     match v["kind"].as_str() {
+        Some("span_op") => {
+            let src: Vec<char> = v["src"].as_str().unwrap_or("").chars().collect();
+            let g = |k: &str| v[k].as_u64().unwrap_or(0) as usize;
+            span_case(rep, g("op"), g("a"), g("b"), g("x"), g("y"), &src, "replay")
+        }
+        Some("lg_history") => {
+            let mut kinds = Default::default();
+            lg_history(rep, &mut kinds, dict, v["steps"].as_array().map(|a| a.as_slice()).unwrap_or(&[]))
+        }
+        Some("premise") => premise_monitor(rep, &real_pattern_rules(), v["frontend"].as_str().unwrap_or("plain"), v["text"].as_str().unwrap_or(""), dict),
         Some("recurrence") => recurrence_run(rep, dict, v["trigger"].as_str().unwrap_or(""), v["text1"].as_str().unwrap_or(""), v["text2"].as_str().unwrap_or(""),
             v["pos1"].as_u64().unwrap_or(0) as usize, v["pos2"].as_u64().unwrap_or(0) as usize, v["same_doc"].as_bool().unwrap_or(false)),
         Some("document") => {
@@ -284,6 +785,16 @@ pub fn run(a: &Args, corpus: &[Value]) {
         let kind = r.below(3);
         let cs = rand_text(&mut r, 3);
         check_triple(&mut rep, kind, &cs, x, y, &src, "malformed");
+    }
+    // span.rs, every function, incl. the debug-build panics (numbers up to usize::MAX)
+    span_ops(&mut rep, &mut r, a);
+    // LintGroup::lint, whole loop: histories on one group of test rules
+    {
+        let mut kinds = Default::default();
+        for _ in 0..a.scale(120, 1500) {
+            let steps = gen_lg_history(&mut r);
+            lg_history(&mut rep, &mut kinds, &dict, &steps);
+        }
     }
     if a.thorough() {
         // exhaustive: all texts of length <= 6 over {a,b}, all spans, 3 kinds x replacement in {"", "x", same-length "xx.."}
@@ -341,6 +852,13 @@ pub fn run(a: &Args, corpus: &[Value]) {
     fes.push("markdown+ie".into());
     fes.push("plain+ie".into());
     let per_fe = a.scale(14, 160);
+    let real_rules = real_pattern_rules();
+    for c in gen::TRIGGERS {
+        for _ in 0..a.scale(2, 10) {
+            let text = format!("{} {}, {} {c}; {}", gen::clean_sentence(&mut r), c, gen::clean_sentence(&mut r).to_lowercase(), gen::clean_sentence(&mut r));
+            premise_monitor(&mut rep, &real_rules, "plain", &text, &dict);
+        }
+    }
     let all_keys: Vec<String> = group.iter_keys().map(|s| s.to_string()).collect();
     for fe in &fes {
         for i in 0..per_fe {
@@ -369,6 +887,7 @@ pub fn run(a: &Args, corpus: &[Value]) {
                 continue;
             }
             check_document(&mut rep, fe, &text, &mut group, &dict, cfg_name);
+            premise_monitor(&mut rep, &real_rules, fe, &text, &dict);
         }
     }
     rep.finish();
